@@ -416,6 +416,7 @@ class Impl(object):
         self.F, self.C, self.E = F, C, E
         self.tmp = tempfile.mkdtemp(prefix='verif_c04_')
         self.k = 0
+        self.tolerant = None
         sys.setrecursionlimit(max(sys.getrecursionlimit(), 1000))
 
     def close(self):
@@ -532,11 +533,13 @@ class Impl(object):
                     pass
                 # ... and a lookup that tolerates type-conversion errors (what graph.py does for the memoization info):
                 # it must neither leave an undefined reference in place nor poison the cache of the strict lookup
+                self.tolerant = None
                 try:
                     concrete.get_component_configuration((case['stage'], case['name']), raw=False, include_default=True,
                                                          ignore_convert_errors=True)
-                except Exception:
-                    pass
+                    self.tolerant = 'ok'
+                except Exception as error:
+                    self.tolerant = type(error).__name__
             r = concrete.get_component_configuration((case['stage'], case['name']), raw=raw, include_default=True)
             r.pop('override', None)
             return ('ok', r)
@@ -968,7 +971,13 @@ def _explore(ctx, cases, metamorphic=True):
             ctx.count('question_%s' % ('active_platform', 'explicit_platform_on_other_object', 'after_primitive_resolution',
                                        'after_resolving_then_mutator')[impl.qmode(case)])
             oraw = impl.outcome(case, True)
+            impl.tolerant = None
             ores = impl.outcome(case, False)
+            # tolerating TYPE-CONVERSION errors must not make the lookup tolerate an undefined variable
+            if impl.tolerant == 'ok' and ores[0] == 'err' and ores[1] in ('FlowIRVariableUnknown', 'FlowIRVariableInvalid'):
+                ctx.fail({'case': case}, 'a lookup with ignore_convert_errors=True returned a configuration although a '
+                         'variable it references is undefined (%s %s): the reference was left in place' % (ores[1], ores[2]),
+                         classes_of(case))
             o_str = impl.outcome(strip_foreign(case), False) if metamorphic else None
             cls = classes_of(case)
             predicates(ctx, case, oraw, ores, builtin, o_str, cls)
